@@ -83,9 +83,15 @@ macro_rules! quat_float_cases {
             let rd = |v: Q| -> A4 { [v.x as f64, v.y as f64, v.z as f64, v.w as f64] };
             let bits = |v: Q| [v.x.to_bits(), v.y.to_bits(), v.z.to_bits(), v.w.to_bits()];
             let a0 = gen_unit(t);
-            let (b0, how) = gen_to(t, &a0);
+            let (mut b0, mut how) = gen_to(t, &a0);
             let unit = !t.chance(64);
-            let (sa, sb) = if unit { (1.0, 1.0) } else { (t.range_f64(0.25, 4.0), t.range_f64(0.25, 4.0)) };
+            let (sa, mut sb) = if unit { (1.0, 1.0) } else { (t.range_f64(0.25, 4.0), t.range_f64(0.25, 4.0)) };
+            // exactly equal endpoints (also non-unit ones): nothing to interpolate, but the result is still q/|q|
+            if t.chance(20) {
+                b0 = a0;
+                sb = sa;
+                how = "to == from exactly";
+            }
             let (qa, qb) = (q(&scale4(&a0, sa)), q(&scale4(&b0, sb)));
             let (a, b) = (rd(qa), rd(qb));
             let f = factor_f64(t) as S;
